@@ -107,24 +107,35 @@ Print Assumptions weakref_iff.
 
 Theorem weakrefable_iff : forall i o,
   create_slots_class i = ROk o -> ~ In "__weakref__" (i_attr_names i) -> ~ In "__weakref__" (i_base_names i) ->
-  ~ In "__weakref__" (i_orig_slots i) -> mro_consistent i o ->
+  mro_consistent i o ->
   weakrefable i o = (i_weakref_slot i || weakref_inherited i).
 Proof. exact weakrefable_iff_l. Qed.
 Print Assumptions weakrefable_iff.
 
-(** Without the guard on the class's own [__slots__] the statement is false (K08.1). *)
-Theorem weakref_own_slots_counterexample :
-  exists i o, create_slots_class i = ROk o /\ i_weakref_slot i = true /\ weakrefable i o = false.
-Proof. exact weakref_own_slots_refuted. Qed.
-Print Assumptions weakref_own_slots_counterexample.
+(** A class body that itself lists [__weakref__] in [__slots__]: honoured (was K08.1;
+    [weakref_own_slots_old_rule_refuted] in C08/Proofs.v keeps the pre-repair witness). *)
+Theorem weakref_own_slots_honoured :
+  exists o, create_slots_class own_weakref_slots_input = ROk o /\
+            o_slots o = ["x"; "__weakref__"] /\ weakrefable own_weakref_slots_input o = true.
+Proof. exact weakref_own_slots_honoured_l. Qed.
+Print Assumptions weakref_own_slots_honoured.
 
-(** A base whose [__slots__] is a string: no class is returned at all (K08.2). *)
-Theorem string_slots_base_counterexample :
-  exists i, i_mro i = [ {| b_id := 2; b_slots := [("a", None); ("b", None)]; b_weakref := false; b_dict := false;
-                           b_own_setattr := None; b_immediate := true; b_hook := false; b_layer := None |} ]
-            /\ create_slots_class i = RErr.
-Proof. exact string_slots_base_refuted. Qed.
-Print Assumptions string_slots_base_counterexample.
+(** A base whose [__slots__] is a single string contributes that one slot, whatever its
+    name (was K08.2; [string_slots_old_scan_refuted] keeps the pre-repair witness) ... *)
+Theorem string_slots_single_slot : forall n d,
+  dict_of_slots (iter_slots (SlotsStr n (Some d))) [] = Some [(n, d)].
+Proof. exact string_slots_single_slot_l. Qed.
+Print Assumptions string_slots_single_slot.
+
+(** ... and the class is built; an own field of that name re-uses the base's slot. *)
+Theorem string_slots_base_builds :
+  exists o, create_slots_class
+              {| i_old := 0; i_new := 1; i_ns := []; i_attr_names := ["ab"; "x"]; i_base_names := [];
+                 i_mro := [str_base "ab" (Some 20)]; i_weakref_slot := true; i_cache_hash := false; i_orig_slots := ["ab"];
+                 i_wrote_own_setattr := false; i_has_custom_setattr := false; i_store := []; i_fresh := 0 |} = ROk o /\
+            o_slots o = ["x"; "__weakref__"] /\ lookupS "ab" (o_ns o) = Some (20, KSlotDescr).
+Proof. exact string_slots_base_builds_l. Qed.
+Print Assumptions string_slots_base_builds.
 
 (** ** cached_property *)
 
